@@ -435,6 +435,8 @@ def call_sites(ctx):
             leaf5 = attempt("simplify", lambda: S.simplify(leaf))
             pe_leaf = attempt("partial_eval", lambda: leaf.partial_eval(8))
             tr = attempt("transpose", lambda: caller.transpose(caller.args()[2]))
+            # add_assertion narrows the admissible inputs: a new origin, like partial_eval / transpose
+            aa_leaf = attempt("add_assertion", lambda: leaf.add_assertion(f"{leaf.args()[0].name()} >= 1"))
             # call_eqv: equivalent modulo {} / modulo {x} / modulo {x,y} / not equivalent / new origin
             c2 = attempt("call_eqv.leaf2", lambda: S.call_eqv(caller, "leaf(_, _)", leaf2))
             c3 = attempt("call_eqv.leaf3", lambda: S.call_eqv(caller, "leaf(_, _)", leaf3))
@@ -446,10 +448,11 @@ def call_sites(ctx):
             if c4 is not None and c2 is not None:
                 attempt("call_eqv.back", lambda: S.call_eqv(c4, "leaf4(_, _)", leaf2))
             is_eq_vals = [attempt("is_eq", lambda: leaf.is_eq(leaf)), attempt("is_eq", lambda: leaf.is_eq(leaf2))]
-            named = dict(leaf=leaf, leaf2=leaf2, leaf3=leaf3, leaf4=leaf4, leaf5=leaf5, pe_leaf=pe_leaf, tr=tr,
+            cA = attempt("call_eqv.add_assertion", lambda: S.call_eqv(caller, "leaf(_, _)", aa_leaf)) if aa_leaf else None
+            named = dict(leaf=leaf, leaf2=leaf2, leaf3=leaf3, leaf4=leaf4, leaf5=leaf5, pe_leaf=pe_leaf, tr=tr, aa_leaf=aa_leaf,
                          c2=c2, c3=c3, c4=c4, other=other, caller=caller)
             # answers after the fixed scenario (before the random tail changes the relation)
-            for a, b in [("leaf", "leaf2"), ("leaf", "leaf3"), ("leaf", "leaf4"), ("leaf", "pe_leaf"), ("leaf", "other"),
+            for a, b in [("leaf", "leaf2"), ("leaf", "leaf3"), ("leaf", "leaf4"), ("leaf", "pe_leaf"), ("leaf", "aa_leaf"), ("leaf", "other"),
                          ("caller", "tr"), ("caller", "c2"), ("caller", "c4")]:
                 if named.get(a) is not None and named.get(b) is not None:
                     try:
@@ -552,7 +555,7 @@ def call_sites(ctx):
 
     kx, ky = keyids_by_name.get("CfgA_x", "<CfgA_x>"), keyids_by_name.get("CfgA_y", "<CfgA_y>")
     want = {("leaf", "leaf2"): "S1:", ("leaf", "leaf3"): f"S1:{kx}", ("leaf", "leaf4"): f"S1:{kx},{ky}",
-            ("leaf", "pe_leaf"): "S0:", ("leaf", "other"): "S1:", ("caller", "tr"): "S0:", ("caller", "c2"): "S1:",
+            ("leaf", "pe_leaf"): "S0:", ("leaf", "aa_leaf"): "S0:", ("leaf", "other"): "S1:", ("caller", "tr"): "S0:", ("caller", "c2"): "S1:",
             ("caller", "c4"): f"S1:{kx},{ky}"}
     for (a, b), w in want.items():
         got = strictest_of(a, b)
@@ -564,6 +567,8 @@ def call_sites(ctx):
         ctx.violation("API.is_eq:never-true",
                       f"Procedure.is_eq(p, p) and p.is_eq(rename(p)) returned {is_eq_vals}, expected True (API.py:363 compares the bool from check_eqv_proc with frozenset())",
                       {"python": "from exo import proc\n@proc\ndef f(): pass\nassert f.is_eq(f)"})
+    if ev.get("add_assertion") == "ok" and ev.get("call_eqv.add_assertion") == "ok":
+        ctx.violation("call-site:call_eqv.add_assertion", "call_eqv accepted a proc of a new origin (after add_assertion)", replay)
     if ev.get("partial_eval") == "ok" and ev.get("call_eqv.partial_eval") == "ok":
         ctx.violation("call-site:call_eqv.partial_eval", "call_eqv accepted a proc of a new origin (after partial_eval)", replay)
     # reference
